@@ -433,6 +433,10 @@ func (s *Svc) ident() uint32 {
 
 var errNoAnswerReleased = errors.New("released at shutdown")
 
+// shutdownTextArg as the Arg of a failing request makes the handler return an error with the
+// text of rpc.ErrShutdown.
+const shutdownTextArg = 77777
+
 func (s *Svc) do(ctx context.Context, req, res *Msg, shape string) error {
 	w := s.w
 	rec := &ExecRec{Server: s.sid, ID: req.ID, Shape: shape, Start: simrt.Seq(), ArgLen: len(req.Pad), G: simrt.Self()}
@@ -477,6 +481,10 @@ func (s *Svc) do(ctx context.Context, req, res *Msg, shape string) error {
 	}
 	rec.End = simrt.Seq()
 	if req.Flags&FlFail != 0 {
+		if req.Arg == shutdownTextArg {
+			// a handler may return any error, also one that reads like the library's own
+			return errors.New(rpc.ErrShutdown.Error())
+		}
 		return errors.New(ErrText(req.ID, int(req.Arg)))
 	}
 	if req.Flags&FlEmpty != 0 && req.Flags&FlBadReply == 0 {
